@@ -7,15 +7,15 @@ for d in sorted(glob.glob('/verif/seeded/*/')):
     rows.append((id,m))
 out=["# Seeded changes and what catches them","",
 "Every entry is a change to orda-io/orda that compiles, passes the 53 baseline tests and breaks one of the",
-"given properties only when something specific lines up. The changes for C01-C04, C09, C10, C15, C19 and",
-"C05-C08, C11-C14, C16-C18, C20 were written by fresh sub-agents that saw only the property record and a scratch",
-"worktree of the repository (nothing from /verif). Each was confirmed in a scratch worktree before it was kept",
+"given properties only when something specific lines up. All were written by fresh sub-agents that saw only the",
+"property record and a scratch worktree of the repository (nothing from /verif); the second wave was also given the",
+"one-line descriptions of the first wave's changes, so as not to repeat them. Each was confirmed in a scratch worktree before it was kept",
 "(`tools/try_mutant.sh`: patch applies to the current HEAD, both modules build, existing tests pass, the",
 "demonstration passes without the change and fails with it; demonstrations that need a MongoDB were ported to",
 "`scenario.json` and run with `./check --scenario`, see DESIGN.md 11.2). `patch.diff` applies to /repo with",
 "`git -C /repo apply`; the checks are run against a worktree through `VERIF_REPO=<dir> ./check <id> quick`.","",
-"Summary: %d changes; caught as the checks were first built: %d; missed first and caught after the machinery was extended: %d; caught only by the check of another property (with the reason): %d."%(
- len(rows), sum(1 for _,m in rows if m['note'].startswith('caught as built')), sum(1 for _,m in rows if m['note'].lower().startswith('missed')), sum(1 for _,m in rows if m['note'].startswith('not ') or m['note'].startswith('bonus'))),
+"Summary: %d changes (two waves of sub-agents). Caught by the checks as they were when the change arrived: %d; missed first and caught after the machinery was extended (the extension is named in the last column): %d; break their property only through a dimension that belongs to another property's quantifier and are caught by that property's check: %d; NOT detected (reason in the last column): %d."%(
+ len(rows), sum(1 for _,m in rows if m['note'].startswith('caught as built')), sum(1 for _,m in rows if m['note'].lower().startswith('missed')), sum(1 for _,m in rows if m['note'].startswith('not ') or m['note'].startswith('bonus')), sum(1 for _,m in rows if m['note'].startswith('NOT DETECTED'))),
 "","| id | change | needs | detected by | history |","|----|--------|-------|-------------|---------|"]
 for id,m in rows:
     f=lambda s:s.replace('|','\\|').replace('\n',' ')
